@@ -346,10 +346,12 @@ fn gen_plan(r: &mut Rng, t: &Tbl, out: &mut Sink) -> Plan {
         used.insert(p.encode());
         kinds.push("clear-then-recreate-same-id");
         contract = false;
-    } else if shape == 3 {
-        // meta-map page boundary: pages whose probe sequence starts at bucket 4095 / 4096
-        if t.n > 4096 {
-            for want in [4095usize, 4096] {
+    } else if shape == 3 || (t.n >= 4095 && shape < 12) {
+        // meta-map page boundary: pages whose probe sequence starts at bucket 4095 / 4096 (two meta pages change in one
+        // sync), resp. at the last bucket of a table that fills exactly one meta page (the probe wraps around to bucket 0)
+        if t.n >= 4095 {
+            let wants: Vec<usize> = if t.n > 4096 { vec![4095, 4096, 4095, 4096] } else { vec![t.n - 1, t.n - 1, t.n - 2] };
+            for want in wants {
                 for _ in 0..40000 {
                     let q = fresh_page_id(r, t, &used);
                     if hash_raw_page_id(q.encode(), &t.seed) % t.n as u64 == want as u64 {
